@@ -225,6 +225,49 @@ func c09Sequence(re *regexp2.Regexp, input string, startAt int) (ms []c09Match, 
 	return ms, nil
 }
 
+// the successive matches of the RUNE entry points from the rune at byte offset startAt
+// (FindRunesMatchStartingAt / FindNextMatch): the same runner.scan calls, with the same arguments, as
+// replaceRunnerLTR/RTL make (no string prefilter).  nil when startAt is not a valid start.
+func c09SequenceRunes(re *regexp2.Regexp, input string, startAt int) (ms []c09Match, err error) {
+	defer func() {
+		if e := recover(); e != nil {
+			err = fmt.Errorf("panic: %v", e)
+		}
+	}()
+	runes := []rune(input)
+	start := -1
+	if startAt >= 0 {
+		if startAt > len(input) {
+			return nil, nil
+		}
+		n, found := 0, false
+		for i := range input {
+			if i == startAt {
+				start, found = n, true
+			}
+			n++
+		}
+		if startAt == len(input) {
+			start, found = n, true
+		}
+		if !found {
+			return nil, nil
+		}
+	}
+	m, e := re.FindRunesMatchStartingAt(runes, start)
+	for n := 0; m != nil && e == nil; n++ {
+		if n > 200 {
+			return nil, fmt.Errorf("more than 200 successive matches")
+		}
+		ms = append(ms, c09MatchOf(m))
+		m, e = re.FindNextMatch(m)
+	}
+	if e != nil && strings.Contains(e.Error(), "timeout") {
+		return nil, c09ErrTimeout
+	}
+	return ms, nil
+}
+
 // hypothesis of the C09 theorems (wf_matches): in bounds, ordered, disjoint
 func c09WF(ms []c09Match, n int, rtl bool) string {
 	prev := 0
@@ -724,10 +767,180 @@ func legC09Replace(c *Ctx) {
 	nPat := c.N(1200, 20000)
 	perPat := 28
 	var gRtlMulti, gBoundary, gTooLarge, gEmpty, gInvalid, gMulti, gBalancing, gCountCut, gFunc, gGroupRef, gCache, gFuncErr bool
+	runCase := func(cp *c09Compiled, rep string, toks []c09Tok, clean bool, input string, startAt, count int) {
+		rtl := cp.opts&regexp2.RightToLeft != 0
+		runes := []rune(input)
+		desc := fmt.Sprintf("pattern %+q opts=%s input %+q replacement %+q startAt=%d count=%d", cp.pat, c09Opts(cp.opts), input, rep, startAt, count)
+		key := fmt.Sprintf("%d|%s|%s|%s|%d|%d", cp.opts, cp.pat, rep, input, startAt, count)
+
+		// ms: what the pattern driver scans (rune entry points); msS: what the evaluator driver sees (string entry points)
+		ms, serr := c09SequenceRunes(cp.re, input, startAt)
+		msS, serrS := c09Sequence(cp.re, input, startAt)
+		if serr == c09ErrTimeout || serrS == c09ErrTimeout {
+			return
+		}
+		if serr == nil {
+			serr = serrS
+		}
+		if serr != nil {
+			c.Add(&Case{Desc: desc, Direct: "enumerating the matches failed: " + serr.Error()})
+			return
+		}
+		if w := c09WF(ms, len(runes), rtl) + c09WF(msS, len(runes), rtl); w != "" {
+			c.Add(&Case{Desc: desc, Direct: "hypothesis wf_matches of the C09 theorems does not hold for the real match sequence: " + w})
+			return
+		}
+		out, err := c09SafeReplace(cp.re, input, rep, startAt, count)
+		if c09IsTimeout(err) {
+			return
+		}
+		modelIn := append(append(append(cp.env.enc(), c09Oracle(rep)...), c09Runes(rep)...), b2i09(rtl))
+		modelIn = append(modelIn, c09TW(input)...)
+		modelIn = append(modelIn, int64(startAt), int64(count))
+		modelInS := append(append([]int64(nil), modelIn...), c09EncMatches(msS)...)
+		modelIn = append(modelIn, c09EncMatches(ms)...)
+		processed := len(ms)
+		if count >= 0 && count < processed {
+			processed = count
+			gCountCut = gCountCut || count > 0
+		}
+		cs := &Case{Desc: desc + fmt.Sprintf(" -> %+q, %v", out, err), Key: key, ModelLeg: 902, ModelIn: modelIn, ImplOut: c09ResString(out, err),
+			Nontrivial: err == nil && processed > 0 && out != input}
+		switch {
+		case c09IsPanic(err):
+			cs.Direct = "Replace panicked: " + err.Error()
+			cs.ImplOut = []int64{2, 0}
+		case err != nil:
+			cs.Class = "replace-error"
+		case processed == 0:
+			cs.Class = "replace-nomatch"
+		case rtl:
+			cs.Class = "replace-rtl"
+		default:
+			cs.Class = "replace-ltr"
+		}
+		if err == nil {
+			// direct observables
+			if processed == 0 && out != input {
+				cs.Direct = fmt.Sprintf("no match was replaced but the result %+q is not the input", out)
+			}
+			if processed > 0 && !utf8.ValidString(out) {
+				cs.Direct = "result is not valid UTF-8"
+			}
+			fresh := c09Compile(cp.pat, cp.opts)
+			if out2, err2 := c09SafeReplace(fresh.re, input, rep, startAt, count); err2 != nil || out2 != out {
+				cs.Direct = fmt.Sprintf("a freshly compiled Regexp gives %+q, %v (replacement cache not transparent)", out2, err2)
+			}
+			id, ierr := c09SafeReplace(cp.re, input, "$&", startAt, count)
+			if ierr != nil || id != string(runes) && id != input {
+				cs.Direct = fmt.Sprintf("Replace with $& is not the identity: %+q, %v", id, ierr)
+			}
+		}
+		c.Add(cs)
+		if clean && !c09IsPanic(err) {
+			// ReplaceFunc with an evaluator computing the same expansion gives the same string (or the same error)
+			ev := func(m regexp2.Match) string { return c09Expand(toks, runes, m) }
+			fout, ferr := c09SafeReplaceFunc(cp.re, input, ev, startAt, count)
+			if !c09IsTimeout(ferr) {
+				fc := &Case{Desc: "ReplaceFunc: " + desc + fmt.Sprintf(" -> %+q, %v", fout, ferr), Key: "f|" + key, ModelLeg: 903, ModelIn: modelInS,
+					ImplOut: c09ResString(fout, ferr), Nontrivial: ferr == nil && len(msS) > 0 && fout != input, Class: "replacefunc"}
+				switch {
+				case c09IsPanic(ferr):
+					fc.Direct = "ReplaceFunc panicked: " + ferr.Error()
+					fc.ImplOut = []int64{2, 0}
+				case (ferr == nil) != (err == nil):
+					fc.Direct = fmt.Sprintf("ReplaceFunc returns (%+q, %v) where Replace returns (%+q, %v)", fout, ferr, out, err)
+				case ferr != nil && c09ErrCode(ferr) != c09ErrCode(err):
+					fc.Direct = fmt.Sprintf("ReplaceFunc fails with %v where Replace fails with %v", ferr, err)
+				case ferr == nil && fout != out:
+					fc.Direct = fmt.Sprintf("ReplaceFunc with the evaluator of the same expansion gives %+q; Replace gives %+q", fout, out)
+				}
+				if ferr == nil && processed > 0 {
+					gFunc = true
+				}
+				if ferr != nil {
+					gFuncErr = true
+				}
+				c.Add(fc)
+			}
+		}
+		if err != nil {
+			if err.Error() == "startAt must align to the start of a valid rune in the input string" {
+				gBoundary = true
+			}
+			if err.Error() == "startAt must be less than the length of the input string" {
+				gTooLarge = true
+			}
+			return
+		}
+		// the specification evaluated directly
+		c.Add(&Case{Desc: "replace_spec: " + desc, ModelLeg: 905, ModelIn: modelIn, ImplOut: c09ResString(out, nil), Class: "replace-spec"})
+		if processed >= 2 && rtl && strings.Count(rep, "$") >= 1 && len(rep) >= 3 {
+			gRtlMulti = true
+		}
+		for _, m := range ms[:processed] {
+			if m.length == 0 {
+				gEmpty = true
+			}
+			for _, g := range m.groups[1:] {
+				if len(g) > 0 && clean {
+					gGroupRef = true
+				}
+			}
+		}
+		if !utf8.ValidString(input) {
+			gInvalid = true
+		}
+		if len(runes) != len(input) && processed > 0 {
+			gMulti = true
+		}
+		if strings.Contains(cp.pat, "-o>") && processed > 0 {
+			gBalancing = true
+		}
+	}
+	// deterministic corpus: the witnesses of the defects found so far
+	for _, w := range []struct {
+		pat            string
+		opts           regexp2.RegexOptions
+		input, rep     string
+		startAt, count int
+	}{
+		{`\d`, regexp2.RightToLeft, "a1b2", "<$&>", -1, -1},
+		{`\d`, regexp2.RightToLeft, "a1b2", "<$&>", -1, 1},
+		{`\d`, 0, "a1b2", "<$&>", -1, 0},
+		{`(?=\G)abc`, 0, "xabc", "#", -1, -1},
+		{`\G{2}abc`, 0, "xabc", "#", -1, -1},
+		{`\G+?[a-c1]`, 0, "xabc", "#", -1, -1},
+		{`\G+?[a-c1]`, 0, "ac\u00e9cB2xa ", "$+[a7", 6, -1},
+		{`(?:ab*){2}`, 0, "aba", "[$&]", -1, -1},
+		{`(a)(b)?`, 0, "xaby", "[$1|$2|$3|${1}|${2|$1a|$10|$+|$_|$`|$'|$$|$]", -1, -1},
+	} {
+		cp := c09Compile(w.pat, w.opts)
+		if cp == nil {
+			c.Add(&Case{Desc: "corpus pattern does not compile: " + w.pat, Direct: "compile failed"})
+			continue
+		}
+		c.Hist("programs")
+		// a clean token list equivalent to "#" / "<$&>" for the ReplaceFunc comparison
+		var toks []c09Tok
+		clean := true
+		switch w.rep {
+		case "#":
+			toks = []c09Tok{{kind: 0, lit: "#"}}
+		case "<$&>":
+			toks = []c09Tok{{kind: 0, lit: "<"}, {kind: 3}, {kind: 0, lit: ">"}}
+		case "[$&]":
+			toks = []c09Tok{{kind: 0, lit: "["}, {kind: 3}, {kind: 0, lit: "]"}}
+		case "$+[a7":
+			toks = []c09Tok{{kind: 6}, {kind: 0, lit: "[a7"}}
+		default:
+			clean = false
+		}
+		runCase(cp, w.rep, toks, clean, w.input, w.startAt, w.count)
+	}
 	for pi := 0; pi < nPat; pi++ {
 		cp := c09GenCompiled(c.Rng)
 		c.Hist("programs")
-		rtl := cp.opts&regexp2.RightToLeft != 0
 		var history []string
 		for j := 0; j < perPat; j++ {
 			clean := c.Rng.Chance(40)
@@ -744,128 +957,7 @@ func legC09Replace(c *Ctx) {
 			input := c09Input(c.Rng)
 			startAt := c09StartAt(c.Rng, input)
 			count := c09Count(c.Rng)
-			runes := []rune(input)
-			desc := fmt.Sprintf("pattern %+q opts=%s input %+q replacement %+q startAt=%d count=%d", cp.pat, c09Opts(cp.opts), input, rep, startAt, count)
-			key := fmt.Sprintf("%d|%s|%s|%s|%d|%d", cp.opts, cp.pat, rep, input, startAt, count)
-
-			ms, serr := c09Sequence(cp.re, input, startAt)
-			if serr == c09ErrTimeout {
-				continue
-			}
-			if serr != nil {
-				c.Add(&Case{Desc: desc, Direct: "enumerating the matches failed: " + serr.Error()})
-				continue
-			}
-			if w := c09WF(ms, len(runes), rtl); w != "" {
-				c.Add(&Case{Desc: desc, Direct: "hypothesis wf_matches of the C09 theorems does not hold for the real match sequence: " + w})
-				continue
-			}
-			out, err := c09SafeReplace(cp.re, input, rep, startAt, count)
-			if c09IsTimeout(err) {
-				continue
-			}
-			modelIn := append(append(append(cp.env.enc(), c09Oracle(rep)...), c09Runes(rep)...), b2i09(rtl))
-			modelIn = append(modelIn, c09TW(input)...)
-			modelIn = append(modelIn, int64(startAt), int64(count))
-			modelIn = append(modelIn, c09EncMatches(ms)...)
-			processed := len(ms)
-			if count >= 0 && count < processed {
-				processed = count
-				gCountCut = gCountCut || count > 0
-			}
-			cs := &Case{Desc: desc + fmt.Sprintf(" -> %+q, %v", out, err), Key: key, ModelLeg: 902, ModelIn: modelIn, ImplOut: c09ResString(out, err),
-				Nontrivial: err == nil && processed > 0 && out != input}
-			switch {
-			case c09IsPanic(err):
-				cs.Direct = "Replace panicked: " + err.Error()
-				cs.ImplOut = []int64{2, 0}
-			case err != nil:
-				cs.Class = "replace-error"
-			case processed == 0:
-				cs.Class = "replace-nomatch"
-			case rtl:
-				cs.Class = "replace-rtl"
-			default:
-				cs.Class = "replace-ltr"
-			}
-			if err == nil {
-				// direct observables
-				if processed == 0 && out != input {
-					cs.Direct = fmt.Sprintf("no match was replaced but the result %+q is not the input", out)
-				}
-				if processed > 0 && !utf8.ValidString(out) {
-					cs.Direct = "result is not valid UTF-8"
-				}
-				fresh := c09Compile(cp.pat, cp.opts)
-				if out2, err2 := c09SafeReplace(fresh.re, input, rep, startAt, count); err2 != nil || out2 != out {
-					cs.Direct = fmt.Sprintf("a freshly compiled Regexp gives %+q, %v (replacement cache not transparent)", out2, err2)
-				}
-				id, ierr := c09SafeReplace(cp.re, input, "$&", startAt, count)
-				if ierr != nil || id != string(runes) && id != input {
-					cs.Direct = fmt.Sprintf("Replace with $& is not the identity: %+q, %v", id, ierr)
-				}
-			}
-			c.Add(cs)
-			if clean && !c09IsPanic(err) {
-				// ReplaceFunc with an evaluator computing the same expansion gives the same string (or the same error)
-				ev := func(m regexp2.Match) string { return c09Expand(toks, runes, m) }
-				fout, ferr := c09SafeReplaceFunc(cp.re, input, ev, startAt, count)
-				if !c09IsTimeout(ferr) {
-					fc := &Case{Desc: "ReplaceFunc: " + desc + fmt.Sprintf(" -> %+q, %v", fout, ferr), Key: "f|" + key, ModelLeg: 903, ModelIn: modelIn,
-						ImplOut: c09ResString(fout, ferr), Nontrivial: ferr == nil && processed > 0 && fout != input, Class: "replacefunc"}
-					switch {
-					case c09IsPanic(ferr):
-						fc.Direct = "ReplaceFunc panicked: " + ferr.Error()
-						fc.ImplOut = []int64{2, 0}
-					case (ferr == nil) != (err == nil):
-						fc.Direct = fmt.Sprintf("ReplaceFunc returns (%+q, %v) where Replace returns (%+q, %v)", fout, ferr, out, err)
-					case ferr != nil && c09ErrCode(ferr) != c09ErrCode(err):
-						fc.Direct = fmt.Sprintf("ReplaceFunc fails with %v where Replace fails with %v", ferr, err)
-					case ferr == nil && fout != out:
-						fc.Direct = fmt.Sprintf("ReplaceFunc with the evaluator of the same expansion gives %+q; Replace gives %+q", fout, out)
-					}
-					if ferr == nil && processed > 0 {
-						gFunc = true
-					}
-					if ferr != nil {
-						gFuncErr = true
-					}
-					c.Add(fc)
-				}
-			}
-			if err != nil {
-				if err.Error() == "startAt must align to the start of a valid rune in the input string" {
-					gBoundary = true
-				}
-				if err.Error() == "startAt must be less than the length of the input string" {
-					gTooLarge = true
-				}
-				continue
-			}
-			// the specification evaluated directly
-			c.Add(&Case{Desc: "replace_spec: " + desc, ModelLeg: 905, ModelIn: modelIn, ImplOut: c09ResString(out, nil), Class: "replace-spec"})
-			if processed >= 2 && rtl && strings.Count(rep, "$") >= 1 && len(rep) >= 3 {
-				gRtlMulti = true
-			}
-			for _, m := range ms[:processed] {
-				if m.length == 0 {
-					gEmpty = true
-				}
-				for _, g := range m.groups[1:] {
-					if len(g) > 0 && clean {
-						gGroupRef = true
-					}
-				}
-			}
-			if !utf8.ValidString(input) {
-				gInvalid = true
-			}
-			if len(runes) != len(input) && processed > 0 {
-				gMulti = true
-			}
-			if strings.Contains(cp.pat, "-o>") && processed > 0 {
-				gBalancing = true
-			}
+			runCase(cp, rep, toks, clean, input, startAt, count)
 		}
 	}
 	c.Gate("replace: right-to-left, two or more matches, replacement with several rules", gRtlMulti)
